@@ -63,6 +63,9 @@ CLAIMED.update({
  "C14": C("stateful (model-based) property-based testing: generated operation histories on both inner graph types; reference digraph + Warshall reachability as oracle for acceptance, plus order-bookkeeping invariants after every step",
           "Operation histories over Acyclic<DiGraph> and Acyclic<StableDiGraph>: every insertion accepted iff it keeps the graph acyclic (right error kind, is_valid_edge for all pairs), rejected calls change nothing, removals of present and absent nodes keep the order consistent; try_from_graph/TryFrom accept exactly acyclic graphs.",
           "the slot model of gmodel.rs and the Warshall closure in agraph.rs", "DESIGN.md section 5, C14"),
+ "C06": C("property-based testing with trait-generic oracles: generated mutated states of all six graph types, ~20 adaptor views each, every visit trait compared with the expected (reversed / symmetrised / induced / restricted) abstract graph",
+          "States of Graph (renumbered), StableGraph (vacancies), GraphMap, MatrixGraph (reused ids), Csr and adj::List and their Reversed / UndirectedAdaptor / NodeFiltered / EdgeFiltered / Frozen / reference views up to depth 2 are checked trait by trait (identifiers, references, index maps, neighbours, incident edges with orientation, adjacency matrix, visit maps, DataMap) against the expected abstract graph.",
+          "the generic checkers and expected-graph derivations in props/c06.rs", "DESIGN.md section 5, C06"),
 })
 PLANNED = {}
 
